@@ -226,8 +226,8 @@ struct Failures {
   std::string summary() const {
     std::string out;
     for (auto& k : kinds) {
-      char b[40];
-      snprintf(b, sizeof b, " {%dx} ", k.second.first);
+      char b[64];
+      snprintf(b, sizeof b, " (%d failures of this kind, first:) ", k.second.first);
       out += b + k.second.second.substr(0, 330);
     }
     return out.substr(0, 800);
